@@ -24,7 +24,7 @@ CEX_CFG = "T_C13_cex.cfg"
 MANIFEST = {
     "category": "model_checking",
     "text": "For every generated single-function program (loops with/without comparable bounds, branches on signed/unsigned/equality "
-            "comparisons, register arithmetic incl. subpiece/extension, stack stores/loads at constant offsets incl. partial and "
+            "comparisons, compound conditions (&&, ||, !) with one operand decided by constants of the block, register arithmetic incl. subpiece/extension, stack stores/loads at constant offsets incl. partial and "
             "overlapping ones, parameter registers, accesses to small absolute addresses) the REAL compute_function_signatures + "
             "pointer_inference::run result is recorded at every BlkStart/BlkEnd node; TLC model-checks the monitor machine PiMonitor.tla "
             "(IR.tla reference semantics + recorded abstraction) from 12 initial states per program and checks in every state the "
@@ -324,7 +324,7 @@ def check(seed, tier):
         "entry memory at SP+offset; every other identifier is unknown and excludes nothing; a register with the Top flag excludes nothing",
         "the concrete machine halts at a load/store whose address lies in (-1024, 1024) - the analysis' NULL window",
         "initial memory is an arbitrary but fixed function of the address (IR!InitMem); little endian",
-        "bounded: 12 initial register files per program (random, boundary, constants of the program +-1, NULL-window edges, equal registers), "
+        "bounded: 12 initial register files per program (random, boundary, constants of the program +-1 - every second file places a register at a constant it is compared with, so both edges of a test run -, NULL-window edges, equal registers), "
         "48 blocks per behaviour"])
 
 
